@@ -40,3 +40,7 @@ TABLES = [
 # dialect switching: French and English keyword lines, header at different positions
 DIALECT = ["# language: fr\n", "Fonctionnalité: f\n", "Feature: f\n", "  Scénario: s\n", "  Scenario: s\n", "    Soit x\n", "    Given x\n", "  @t\n", "# c\n", "\n",
            "    * y\n", "# language: en\n"]
+
+# layout: lines whose reading must not depend on indentation, padding, line ending, blank lines and comments around them
+LAYOUT = ["Feature: f\n", "  Scenario: s\n", "    Given x\n", "      | a | b |\n", '      """\n', "    text\n", "  @t @u\n", "    Examples:\n", "# c\n", "\n",
+          "  Rule: r\n", "junk\n"]
